@@ -246,7 +246,8 @@ def register_load(K):
     K.contract("fickle.StackedPickle.load", params="pickled: val", returns="fickle.StackedPickle", requires=["is_bytes_or_stream(pickled)"],
                may_raise=["fickle.PickleDecodeError", "NotImplementedError", "ValueError", "TypeError"], exact_raises=False,
                effects=["read(arg)", "seek(arg)"], props=["no-frame"], modifies=["@stream.position"],
-               ensures=["fresh_since_entry(result)", "len(result.pickled) >= 1"],
+               ensures=["fresh_since_entry(result)", "len(result.pickled) >= 1",
+                        "forall('j', len(result.pickled), 'inv(result.pickled[j])')", "private(result.pickled)"],
                internal=["len(starts) == len(result.pickled) + 1",
                         "forall('j', len(result.pickled), 'DUMPS(result.pickled[j]) == bslice(stream_content(the_stream), starts[j], starts[j + 1])')",
                         "forall('j', len(result.pickled), 'starts[j] < starts[j + 1]')",
@@ -259,6 +260,7 @@ def register_load(K):
                                          "forall('j', len(pickles), 'DUMPS(pickles[j]) == bslice(stream_content(pickled), starts[j], starts[j + 1])')",
                                          "forall('j', len(pickles), 'starts[j] < starts[j + 1]')",
                                          "forall('j', len(pickles), 'ref_of(pickles[j]) >= entry_alloc()')",
+                                         "forall('j', len(pickles), 'inv(pickles[j])')",
                                          "forall('j', len(pickles), 'ref_of(pickles[j]._opcodes) != ref_of(pickles)')",
                                          "starts[0] == entry_pos_of(pickled)"],
                               modifies=["pickles[]", "@stream.position"])},
@@ -290,7 +292,7 @@ def register_load(K):
     K.contracts[c2.qual] = c2
 
     K.contract("fickle.StackedPickle.__init__", params="self: fickle.StackedPickle, pickled: iterable", modifies=["self.pickled"],
-               ensures=["self.pickled == seq_of(pickled)"])
+               ensures=["self.pickled == seq_of(pickled)", "private(self.pickled)", "fresh_since_entry(self.pickled)"])
 
 
 def register_variants(K):
